@@ -72,7 +72,8 @@ def has_operator_token_as_operand(t):
     return False
 
 
-FETCH_INTO_RE = re.compile(r"\bfetch\s+[\w.`\"]+\s+into\s+([^;]*)", re.I)
+_GAP = r"(?:\s|/\*.*?\*/|--[^\n]*\n|\#[^\n]*\n)+"        # white space and comments between two tokens
+FETCH_INTO_RE = re.compile(r"\bfetch" + _GAP + r"[\w.`\"]+" + _GAP + r"into" + _GAP + r"([^;]*)", re.I | re.S)
 
 
 def root_cause(sql, tree, span=None):
@@ -93,6 +94,10 @@ def root_cause(sql, tree, span=None):
 def run(ctx, scale=1):
     rep = ctx.rep
     R = C.real()
+    if ctx.driver:
+        # Tie B for `scrub_loses_no_content`: the scrub model against the real _parse + scrub on generated raw trees
+        import scrubtie
+        scrubtie.run_correspondence(ctx, (1500 if ctx.quick else 20000) * scale)
     kw = set(ctx.gen["keyword_words"])
     stmts = pool.statements(ctx, n_gen=(500 if ctx.quick else 8000) * scale)
     g = Q.QueryGen(ctx.rng, ctx.gen["ops"])
